@@ -3,8 +3,8 @@ namespace Tcell.Props.C04
 open Tcell Tcell.Modes
 
 /-- placeholder first theorem (replaced below as the proofs deepen): a second Fini touches nothing -/
-theorem fini_idempotent (cf : ModeCfg) (st : MState) : (fini cf (fini cf st).1).2 = [] := by
-  unfold fini
+theorem fini_idempotent (v : Bool) (cf : ModeCfg) (st : MState) : (finiV v cf (finiV v cf st).1).2 = [] := by
+  unfold finiV
   split <;> simp_all
 
 end Tcell.Props.C04
